@@ -27,14 +27,15 @@ MUTANTS = {
             ("UnlockEarly", True, "Surround", "abcd", ["k1"], ["Linearizable", "NoSlashableAtt"])],
     "C15": [("UsePreLock", False, "Opposite", "abcd", ["k1", "k2"], ["deadlock"]),
             ("UsePreLock", False, "Crossing", "abcd", ["k1", "k2", "k3"], ["deadlock"]),
-            ("DupCheck", False, "Opposite", "abcd", ["k1", "k2"], ["deadlock"])],
+            ("DupCheck", False, "Opposite", "abcd", ["k1", "k2"], ["deadlock"]),
+            ("BusyDropsMap", True, "Crossing", "abcd", ["k1", "k2", "k3"], ["deadlock"])],
 }
 
 
 def sconsts(mix, reqs, keys, crashes=0, faults=0, **over):
     c = dict(seqfamily.BASE)
     c.update(MaxI=3, Keys=set(keys), Reqs=set(reqs), Catalog=Raw("<- Cat" + mix), MaxCrashes=crashes, MaxFaults=faults, MaxCloses=0,
-             LockMode="all", UsePreLock=True, DupCheck=True, StoreBeforeSign=True, FaultIgnored=False, UnlockEarly=False, StoreMode="atomic")
+             LockMode="all", UsePreLock=True, DupCheck=True, StoreBeforeSign=True, FaultIgnored=False, UnlockEarly=False, StoreMode="atomic", BusyDropsMap=False)
     c.update(over)
     return c
 
@@ -134,7 +135,7 @@ def gen_behaviours(n, seed, wd, broken=None):
 
 
 # ------------------------------------------------------------------ behaviour -> scenario
-SITE = {"PreLock": "prelock", "LockNext": "lock", "PostLock": "postlock", "Fetch": "store.fetch.enter"}
+SITE = {"PreLock": "prelock", "LockNext": "lock", "LockYield": "lock", "PostLock": "postlock", "Fetch": "store.fetch.enter"}
 
 
 def tokens_for(b):
